@@ -295,4 +295,4 @@ def run(prog, R):
     reviewed = reviewed_table()
     rv = {k.replace("C01.6-inventory:", "C14.6-inventory:"): v for k, v in reviewed.items() if k.startswith("C01.6-inventory:")}
     n = inventory.classify(prog, R, "C14.6-inventory", cone, rv)
-    R.floor("panic-capable sites in the lexing cone", n, 19)
+    R.floor("panic-capable sites in the lexing cone", n, 12)
